@@ -76,9 +76,10 @@ def build(macro, depths, flavour=None, handler=None, lets=(), rich=False, reader
             cb = "|v: i32| { ev(\"%d.%d.f\", &v); %s }" % (b, k, outcome(b, k, "v + 1"))
             snap = ""
             if (b, k) in readers:
-                vis = [name(x) for x in sorted(lets)]
+                # a `let mut` name is read through a mutable reborrow: the binding must be mutable in EVERY step (and macro kind)
+                vis = [("&*(&mut %s)" if lets[x] else "&%s") % name(x) for x in sorted(lets)]
                 if vis:
-                    snap = " ev(\"c.%d.%d.s\", &format!(\"{:?}\", (%s,)));" % (k, b, ", ".join("&" + v for v in vis))
+                    snap = " ev(\"c.%d.%d.s\", &format!(\"{:?}\", (%s,)));" % (k, b, ", ".join(vis))
             # a hoisted capture used inside a wrapper closure is borrowed by that closure; a tokio task must be
             # 'static, so this shape is not well typed in the task-spawning macros (DESIGN §3.14)
             use_cap = (rich or bool(snap)) and not (wrap and is_async and macro in dsl.SPAWN)
